@@ -284,7 +284,12 @@ def _analyse_primitive(ctx, mod, clsname, spec):
         tracked = set(spec.states()[0][0])
         done = {"acquire", "release", "__init__"} | cancellers
         acc = class_accesses(mod, cls, tracked, receivers={"self"})
-        inlined = {call_name(c)[5:] for m_ in ms.values() for c in ast.walk(m_) if isinstance(c, ast.Call) and (call_name(c) or "").startswith("self.")}
+        # a private method that is called as self.<name>(...) somewhere in the class family (this class and its bases in the module)
+        # runs mid-operation: it is analysed inlined at its call sites (hooks resolved per subclass through the MRO) and is not an
+        # invariant boundary; only methods user code can enter are
+        family = [cls] + [b for b in (mod.find(dotted(x) or "") for x in cls.bases) if isinstance(b, ast.ClassDef)]
+        inlined = {call_name(c)[5:] for k_ in family for m_ in methods(k_).values() for c in ast.walk(m_)
+                   if isinstance(c, ast.Call) and (call_name(c) or "").startswith("self.") and call_name(c).count(".") == 1}
         for name in sorted({a.func.split(".")[1] for a in acc} - done):
             if name.startswith("_") and name in inlined:
                 continue  # private helper: analysed inlined at its call sites, it is not an entry point
@@ -704,4 +709,30 @@ MUTANTS += [
                  (DEFER, "    def _releaseAndReturn(self, r: _T) -> _T:",
                   "    def _whileHeld(self, _held, fn, positional, named):\n        return maybeDeferred(fn, *positional, **named).addBoth(self._releaseAndReturn)\n\n"
                   "    def _releaseAndReturn(self, r: _T) -> _T:")]),
+]
+
+_BASE_HOOKS = ("    def _free(self):\n        raise NotImplementedError()\n\n    def _take(self):\n        raise NotImplementedError()\n\n    def _give(self):\n        raise NotImplementedError()\n\n"
+               "    def _admit(self, d):\n        if self._free():\n            self._take()\n            return True\n        self.waiting.append(d)\n        return False\n\n"
+               "    def _passOn(self):\n        self._give()\n        if not self.waiting:\n            return None\n        self._take()\n        return self.waiting.pop(0)\n\n")
+_REL_RET = "    def _releaseAndReturn(self, r: _T) -> _T:"
+_LOCK_ACQ = ("        if self.locked:\n            self.waiting.append(d)\n        else:\n            self.locked = True\n            d.callback(self)\n        return d\n")
+_LOCK_HOOKS = ("\n    def _free(self):\n        return not self.locked\n\n    def _take(self):\n        self.locked = True\n\n    def _give(self):\n        self.locked = False\n")
+_SEM_ACQ = ("        if not self.tokens:\n            self.waiting.append(d)\n        else:\n            self.tokens = self.tokens - 1\n            d.callback(self)\n        return d\n")
+_SEM_HOOKS = ("\n    def _free(self):\n        return bool(self.tokens)\n\n    def _take(self):\n        self.tokens = self.tokens - 1\n\n    def _give(self):\n        self.tokens = self.tokens + 1\n")
+_HOOKED = [(DEFER, _REL_RET, _BASE_HOOKS + _REL_RET),
+           (DEFER, _LOCK_ACQ, "        if self._admit(d):\n            d.callback(self)\n        return d\n" + _LOCK_HOOKS),
+           (DEFER, _SEM_ACQ, "        if self._admit(d):\n            d.callback(self)\n        return d\n" + _SEM_HOOKS),
+           (DEFER, _SEM_REL, "        nxt = self._passOn()\n        if nxt is not None:\n            nxt.callback(self)\n")]
+_LOCK_REL_HOOKED = "        nxt = self._passOn()\n        if nxt is not None:\n            nxt.callback(self)\n"
+SILENT += [
+    # template method: capacity bookkeeping behind per-class hooks, the admit / hand-over decisions written once on the base class
+    Silent("capacity-hooks-template-method", DEFER, _LOCK_TAIL, _LOCK_REL_HOOKED, more=_HOOKED),
+]
+MUTANTS += [
+    # the inductive invariant is still decided at the public exits / call-outs THROUGH the hooks
+    Mutant("hooked-handover-does-not-retake", DEFER, _LOCK_TAIL, _LOCK_REL_HOOKED, expect_rule="invariant/call-out",
+           more=[(p_, o_, n_.replace("        self._give()\n        if not self.waiting:\n            return None\n        self._take()\n",
+                                      "        self._give()\n        if not self.waiting:\n            return None\n")) for p_, o_, n_ in _HOOKED]),
+    Mutant("semaphore-hook-takes-nothing", DEFER, _LOCK_TAIL, _LOCK_REL_HOOKED, expect_rule="invariant/",
+           more=[(p_, o_, n_.replace("    def _take(self):\n        self.tokens = self.tokens - 1\n", "    def _take(self):\n        pass\n")) for p_, o_, n_ in _HOOKED]),
 ]
